@@ -255,7 +255,7 @@ def UniqueKeys (acc : List (Name × Req)) : Prop := ∀ p ∈ acc, ∀ p' ∈ ac
 /-- Invariant of the fold: a requirement seen so far is represented by the entry under its
 `project_name`, and that entry carries all of its clauses and extras. -/
 def Covered (acc : List (Name × Req)) (q : Req) : Prop :=
-  ∃ p ∈ acc, p.1 = safeName q.name ∧ (∀ c ∈ q.clauses, c ∈ p.2.clauses) ∧ (∀ e ∈ q.extras, e ∈ p.2.extras)
+  ∃ p ∈ acc, p.1 = reduceKey q.name ∧ (∀ c ∈ q.clauses, c ∈ p.2.clauses) ∧ (∀ e ∈ q.extras, e ∈ p.2.extras)
 
 theorem reduceStep_spec (acc acc' : List (Name × Req)) (r : Req) (hu : UniqueKeys acc)
     (h : reduceStep (some acc) r = some acc') :
@@ -266,7 +266,7 @@ theorem reduceStep_spec (acc acc' : List (Name × Req)) (r : Req) (hu : UniqueKe
   · -- an entry with this key exists
     rename_i p hfind
     have hp : p ∈ acc := List.mem_of_find?_eq_some hfind
-    have hpk : p.1 = safeName r.name := by simpa using List.find?_some hfind
+    have hpk : p.1 = reduceKey r.name := by simpa using List.find?_some hfind
     split at h
     · cases h
     · rename_i m hm
@@ -276,12 +276,12 @@ theorem reduceStep_spec (acc acc' : List (Name × Req)) (r : Req) (hu : UniqueKe
         obtain ⟨x0, hx0, rfl⟩ := List.mem_map.1 hx
         obtain ⟨y0, hy0, rfl⟩ := List.mem_map.1 hy
         have hk : x0.1 = y0.1 := by
-          have e1 : (if x0.1 = safeName r.name then (x0.1, m) else x0).1 = x0.1 := by split <;> rfl
-          have e2 : (if y0.1 = safeName r.name then (y0.1, m) else y0).1 = y0.1 := by split <;> rfl
+          have e1 : (if x0.1 = reduceKey r.name then (x0.1, m) else x0).1 = x0.1 := by split <;> rfl
+          have e2 : (if y0.1 = reduceKey r.name then (y0.1, m) else y0).1 = y0.1 := by split <;> rfl
           rw [e1, e2] at hxy; exact hxy
         rw [hu x0 hx0 y0 hy0 hk]
       · rintro q ⟨p', hp', hn, hc, he⟩
-        refine ⟨if p'.1 = safeName r.name then (p'.1, m) else p', List.mem_map.2 ⟨p', hp', rfl⟩, ?_, ?_, ?_⟩
+        refine ⟨if p'.1 = reduceKey r.name then (p'.1, m) else p', List.mem_map.2 ⟨p', hp', rfl⟩, ?_, ?_, ?_⟩
         · split <;> exact hn
         · intro c hcq
           split
@@ -308,7 +308,7 @@ theorem reduceStep_spec (acc acc' : List (Name × Req)) (r : Req) (hu : UniqueKe
           rw [merge_extras_union p.2 r m hm]; exact Or.inr her
   · rename_i hfind
     cases h
-    have hnone : ∀ p ∈ acc, p.1 ≠ safeName r.name := by
+    have hnone : ∀ p ∈ acc, p.1 ≠ reduceKey r.name := by
       intro p hp
       have := List.find?_eq_none.1 hfind p hp
       simpa using this
@@ -321,7 +321,7 @@ theorem reduceStep_spec (acc acc' : List (Name × Req)) (r : Req) (hu : UniqueKe
       · simp at hx hy; rw [hx, hy]
     · rintro q ⟨p, hp, h⟩
       exact ⟨p, List.mem_append_left _ hp, h⟩
-    · exact ⟨(safeName r.name, r), by simp, rfl, fun _ h => h, fun _ h => h⟩
+    · exact ⟨(reduceKey r.name, r), by simp, rfl, fun _ h => h, fun _ h => h⟩
 
 theorem reduceStep_none (rs : List Req) : rs.foldl reduceStep none = none := by
   induction rs with
@@ -373,11 +373,11 @@ theorem reduce_keeps_bounds (rs out : List Req) (h : reduceReqs rs = some out) (
 with one `project_name` normalise equally (true of every list whose names have no *runs* of
 separators), it returns. -/
 theorem reduce_total (rs : List Req)
-    (hn : ∀ a ∈ rs, ∀ b ∈ rs, safeName a.name = safeName b.name → normName a.name = normName b.name) :
+    (hn : ∀ a ∈ rs, ∀ b ∈ rs, reduceKey a.name = reduceKey b.name → normName a.name = normName b.name) :
     (reduceReqs rs).isSome = true := by
   suffices H : ∀ (rs' : List Req) (acc : List (Name × Req)),
       (∀ a ∈ rs', a ∈ rs) →
-      (∀ p ∈ acc, ∃ a ∈ rs, p.1 = safeName a.name ∧ normName p.2.name = normName a.name) →
+      (∀ p ∈ acc, ∃ a ∈ rs, p.1 = reduceKey a.name ∧ normName p.2.name = normName a.name) →
       (rs'.foldl reduceStep (some acc)).isSome = true by
     have := H rs [] (fun _ h => h) (by intro p hp; cases hp)
     unfold reduceReqs
@@ -396,7 +396,7 @@ theorem reduce_total (rs : List Req)
     split
     · rename_i p hfind
       have hp : p ∈ acc := List.mem_of_find?_eq_some hfind
-      have hpk : p.1 = safeName r.name := by simpa using List.find?_some hfind
+      have hpk : p.1 = reduceKey r.name := by simpa using List.find?_some hfind
       obtain ⟨a, ha, hka, hna⟩ := hacc p hp
       have hnn : normName p.2.name = normName r.name := by
         rw [hna]; exact hn a ha r hr (hka.symm.trans hpk)
@@ -449,5 +449,17 @@ end RV
 
 /-! ### Tie to the source text: the regenerated normaliser chain is the modelled one -/
 namespace RV
+/-- **reduce_merges_spellings** (D3 repaired in /repo): two requirements whose names are spellings of one project
+become one entry — the merge of the two — whatever their order -/
+theorem reduce_merges_spellings (a b : Req) (h : reduceKey a.name = reduceKey b.name) :
+    reduceReqs [a, b] = (mergeReq a b).map fun m => [m] := by
+  unfold reduceReqs
+  simp only [List.foldl_cons, List.foldl_nil, reduceStep, List.find?_nil, List.nil_append, List.find?_cons, h,
+    decide_true]
+  cases mergeReq a b <;> simp
+
+theorem reduce_spelling_example :
+    reduceKey "Foo-Bar".toList = reduceKey "foo_bar".toList ∧ reduceKey "D".toList = reduceKey "d".toList := by decide
+
 theorem gen_pyNormChain_eq : Gen.pyNormChain = pyNormChain := by decide
 end RV
